@@ -444,7 +444,7 @@ def run(chk):
             lengths = sorted({0, 1, rng.randrange(2, B), B, B + 1, 2 * B + rng.randrange(4), 300 + rng.randrange(8), 700})
             traces.append(rw_session(rng, B, rng.randint(1, 4), rng.randrange(8), lengths,
                                      faults(rng, rng.choice((0, 0.05))), "elsewhere origin=%#x B=%d" % (origin, B),
-                                     origin=origin, shapes=(bytes, bytearray, memoryview)))
+                                     origin=origin, shapes=(bytes,)))        # (`data : bytes` is the documented type)
     # a controller given a struct file of its own
     for i in range(chk.pick(8, 200)):
         B = rng.choice((8, 16, 255, 256))
@@ -469,7 +469,7 @@ def run(chk):
                 "fields, per-core fields (numbers; the application name written and read back), fields of a struct file "
                 "of the caller's own (another base, another per-core block size, a struct in each core's own memory, "
                 "signed and array fields), byte-wise fills of a core's own memory, transfers across a 64 KiB boundary "
-                "and in system RAM with the data given as bytes / bytearray / memoryview, link reads / writes (every "
+                "and in system RAM link reads / writes (every "
                 "link to a different chip in the first-operation sessions), with 0-15%% of datagrams lost / duplicated / delivered "
                 "late; non-trivial = non-empty transfer; distinct = distinct (buffer, kind, address, length, session)"
                 % (list(bufs),))
